@@ -420,16 +420,91 @@ func c14PreciseRun(c *Ctx, idx int) {
 	c.Nontrivial(text, t)
 }
 
+// dyadic-deep: m / 2^k for odd m and k up to 60: exact in float64 (m < 2^53), exact in decimal128
+// while the expansion has <= 34 digits, exact as json.Number text - 16 to 34 significant digits,
+// the range where a float is easily mistaken for its shortest or 15/17-digit decimal neighbour.
+func c14DyadicDeep(c *Ctx, idx int) {
+	r := c.Rand("")
+	k := 18 + r.Intn(43)
+	m := int64(2*r.Intn(1<<uint(4+r.Intn(18))) + 1)
+	if r.Chance(20) {
+		m = -m
+	}
+	rat := new(big.Rat).SetFrac(big.NewInt(m), new(big.Int).Lsh(big.NewInt(1), uint(k)))
+	n := ref.Num{R: rat}
+	if !ref.ExactDec(n) {
+		return
+	}
+	txt := ref.NumText(n)
+	f, exact := rat.Float64()
+	if !exact {
+		return
+	}
+	d, err := decimal128.Parse(txt)
+	if err != nil {
+		return
+	}
+	// a second value: the same fraction written from numerator and denominator, and a neighbour
+	carriers := []any{json.Number(txt), f, d, json.Number(txt + "0")}
+	if float64(float32(f)) == f {
+		carriers = append(carriers, float32(f))
+	}
+	templates := []string{"v == w", "v != w", "v < w", "v <= w", "v > w", "[v] == [w]", "contains([w, `1`], v)", "sort([v, w, `0`]) | length(@)", "max([v, w]) == min([v, w])", "xs[?@ == $.v] | length(@)", "v - w", "v == `" + txt + "`", "`" + txt + "` <= v", "p / q == v", "p / q == w", "sort_by(rs, &k)[*].id", "v * `1` == w", "type(v) == type(w)", "abs(v) == abs(w)", "[v, w] | sort(@) | [0] == [w, v] | sort(@) | [0]"}
+	text := templates[idx%len(templates)]
+	mk := func(v, w any) map[string]any {
+		return map[string]any{"v": v, "w": w, "xs": []any{w, json.Number("1"), v}, "p": pq(m, v), "q": pq(int64(1)<<uint(min(k, 62)), v),
+			"rs": []any{map[string]any{"id": "a", "k": v}, map[string]any{"id": "b", "k": json.Number("0")}, map[string]any{"id": "c", "k": w}}}
+	}
+	if k > 62 && strings.Contains(text, "p / q") {
+		return
+	}
+	base := c.LibSearch(text, mk(carriers[0], carriers[0]))
+	if base.Panic != nil {
+		c.Report(Violation{Rule: "C14/panic", Expr: text, Data: txt, Got: ShowOut(base)})
+		return
+	}
+	for i, v := range carriers {
+		for j, w := range carriers {
+			if i == 0 && j == 0 {
+				continue
+			}
+			data := mk(v, w)
+			lv := c.LibSearch(text, data)
+			if !SameOutcome(base, lv, false) {
+				c.Report(Violation{Rule: "C14/representation-dependent", Expr: text, Data: gen.Describe(data), Got: ShowOut(lv), Want: ShowOut(base) + "  (v and w as json.Number " + txt + ")", Features: map[string]string{"template": text, "stream": "dyadic-deep"}})
+			}
+		}
+	}
+	c.Nontrivial(text, txt)
+}
+
+// pq: an integer in the same family of Go kinds as like
+func pq(i int64, like any) any {
+	switch like.(type) {
+	case float64:
+		return float64(i)
+	case float32:
+		if float64(float32(i)) == float64(i) {
+			return float32(i)
+		}
+		return float64(i)
+	case decimal128.Decimal:
+		return decimal128.FromInt64(i)
+	}
+	return json.Number(fmt.Sprint(i))
+}
+
 var c14NeighbourTemplates = []string{"sort([v, u, z])", "sort([z, v, u])", "sort([v, u])", "[u < v, v < z, u == v, v == z, u >= v, z <= v]", "max([u, v, z]) == z", "min([v, z, u]) == u", "sort_by([{k: v}, {k: u}, {k: z}], &k)[*].k", "max_by([{k: u}, {k: z}, {k: v}], &k).k == z", "min_by([{k: v}, {k: u}], &k).k == u",
 	"[v, u, z][?@ > v]", "[v, u, z][?@ == v]", "contains([u, z], v)", "[u, v] == [v, u]", "v - u", "z - v", "sort([z, v, u])[1] == v", "[u, v, z] | sort(@) | [0] == u", "sort([v, u, z, u, v])", "(u < v) && (v < z)", "group_by([{k: u}, {k: v}, {k: z}], &to_string(k == v)) | keys(@) | sort(@)"}
 
 func init() {
 	Register(&Property{
 		ID:            "C14",
-		Rule:          "documents whose number leaves are dyadic rationals k/2^m (|k| < 2^11, m <= 4: exact in json.Number, every int/uint width that fits, float32, float64 and decimal128) with 100 expression templates (+ - x / by powers of two, // %, unary signs, comparisons, == != incl. against literals and inside containers, contains, sort, sort_by, min/max(_by), sum, avg, abs/ceil/floor, truthiness, type, to_number, to_string round trip, filters, map, group_by and every integer-argument coercion fed from the document with integral, non-integral and negative values) and seeded random arithmetic expressions; baseline = all leaves as canonical json.Number; 6 random assignments of Go representations per case plus 7 uniform ones (every leaf float64 / float32 / int / int64 / uint / decimal128 / 'n.0') (json.Number spellings 5 / 5.0 / 5e0 / 50e-1, int..int64, uint..uint64, float32, float64, decimal128 in two exponents) must give the same outcome in value and error category (metamorphic, library against itself); precise stream: 17 numbers that need more precision than a float64 has (near-integers, 2^63-1 with a fraction part, long spellings of small integers) through 27 templates (every integer-argument position, comparisons, rounding, arithmetic) in every carrier that holds them exactly (json.Number spellings, decimal128, int64/uint64/float64 where exact) and against the exact model; boundary stream: 13 large integral values (2^31 .. 2^64, -2^63, 2^100) in every kind that holds them exactly through 31 templates (integer arguments, comparisons, sorting, arithmetic), and each of them together with its neighbours v-1 and v+1 through 20 ordering/equality templates; non-trivial = at least one leaf changed representation and the result is non-null",
+		Rule:          "documents whose number leaves are dyadic rationals k/2^m (|k| < 2^11, m <= 4: exact in json.Number, every int/uint width that fits, float32, float64 and decimal128) with 100 expression templates (+ - x / by powers of two, // %, unary signs, comparisons, == != incl. against literals and inside containers, contains, sort, sort_by, min/max(_by), sum, avg, abs/ceil/floor, truthiness, type, to_number, to_string round trip, filters, map, group_by and every integer-argument coercion fed from the document with integral, non-integral and negative values) and seeded random arithmetic expressions; baseline = all leaves as canonical json.Number; 6 random assignments of Go representations per case plus 7 uniform ones (every leaf float64 / float32 / int / int64 / uint / decimal128 / 'n.0') (json.Number spellings 5 / 5.0 / 5e0 / 50e-1, int..int64, uint..uint64, float32, float64, decimal128 in two exponents) must give the same outcome in value and error category (metamorphic, library against itself); dyadic-deep stream: m/2^k with k = 18..60 (16-34 significant digits: exact in float64, decimal128 and as text) in every pair of carriers through 20 comparison/sorting/arithmetic templates; precise stream: 17 numbers that need more precision than a float64 has (near-integers, 2^63-1 with a fraction part, long spellings of small integers) through 27 templates (every integer-argument position, comparisons, rounding, arithmetic) in every carrier that holds them exactly (json.Number spellings, decimal128, int64/uint64/float64 where exact) and against the exact model; boundary stream: 13 large integral values (2^31 .. 2^64, -2^63, 2^100) in every kind that holds them exactly through 31 templates (integer arguments, comparisons, sorting, arithmetic), and each of them together with its neighbours v-1 and v+1 through 20 ordering/equality templates; non-trivial = at least one leaf changed representation and the result is non-null",
 		MinNontrivial: 2000,
 		Streams: []Stream{
 			{Name: "assignments", N: func(c *Ctx) int { return tierN(c, 20000, 1000000) }, Run: c14Run},
+			{Name: "dyadic-deep", N: func(c *Ctx) int { return tierN(c, 6000, 600000) }, Run: c14DyadicDeep},
 			{Name: "precise", N: func(c *Ctx) int { return len(c14Precise) * len(c14PreciseTemplates) }, Run: c14PreciseRun, Exhaustive: true},
 			{Name: "boundary", N: func(c *Ctx) int { return len(c14Big) * len(c14BigTemplates) }, Run: c14Boundary, Exhaustive: true},
 		},
